@@ -245,7 +245,9 @@ def alphabet(tier="quick", family="all"):
     # 7 solver level
     ops += [("add_cons_vars", "uv2"), ("remove_cons_vars", "uc"), ("remove_cons_vars", "uv"),
             ("solver", "glpk_exact"), ("solver", "glpk"), ("solver", "nope"),
-            ("tolerance", 1e-8), ("optimize",), ("slim_optimize",)]
+            ("tolerance", 1e-8), ("optimize",), ("slim_optimize",),
+            # a solve in the other / the same direction for this one call only (the model keeps its direction)
+            ("optimize", "minimize"), ("optimize", "maximize")]
     # 8 handle replacement
     ops += [("h_copy",), ("h_deepcopy",), ("h_pickle",),
             # continue on the model that comes back from a file format (built by the readers' own code paths; user-level
@@ -490,7 +492,7 @@ def apply_op(S, op):
     elif k == "tolerance":
         m.tolerance = op[1]
     elif k == "optimize":
-        m.optimize()
+        m.optimize(**({"objective_sense": op[1]} if len(op) > 1 else {}))
     elif k == "slim_optimize":
         m.slim_optimize()
     elif k == "medium":
